@@ -84,16 +84,15 @@ def msideRef (s : MSide) (t : V) (k : V → D) : D :=
 
 inductive Cond where
   | holds                    -- the condition is met
-  | fails                    -- not met: the default is `arg_val`-ed against the subject
-  | failsRaw                 -- a validator returned False: the default is returned as is
-  | raised                   -- a validator raised: always a CheckError, even with a default
+  | fails                    -- not met (a validator that returned False, or that raised, included)
   deriving Repr, DecidableEq
 
+/-- a validator fails the check when it returns `False` or raises -/
 def validatorCond (f : Fn) (x : V) : Cond :=
   match predApply f.2 x with
-  | .ret (.bool false) => .failsRaw
+  | .ret (.bool false) => .fails
   | .ret _ => .holds
-  | .raise _ => .raised
+  | .raise _ => .fails
 
 /-- the conditions of a Check on subject `x`, each with the callable it runs -/
 def checkConds (ct : ClassTable) (o : CheckObj) (x : V) : List (Cond × Log) :=
@@ -103,16 +102,21 @@ def checkConds (ct : ClassTable) (o : CheckObj) (x : V) : List (Cond × Log) :=
   (if o.instanceOf.isEmpty then [] else
     [(if o.instanceOf.any (fun c => isInst ct x c) then Cond.holds else .fails, [])])
 
-/-- with a default: the first unmet condition ends the check with the default
-    (a raising validator does not: it is remembered and the check goes on) -/
-def checkWithDefault (d : Arg) (x t0 : V) : List (Cond × Log) → Bool → D
-  | [], bad => if bad then vreject .check else vpass t0
-  | (c, l) :: rest, bad =>
+/-- every condition given to the Check is met by subject `x` -/
+def allHold (ct : ClassTable) (o : CheckObj) (x : V) : Bool :=
+  (o.types.isEmpty || o.types.contains x.cls) &&
+  (o.vals.isEmpty || pyIn x o.vals) &&
+  o.validators.all (fun f => validatorCond f x == .holds) &&
+  (o.instanceOf.isEmpty || o.instanceOf.any (fun c => isInst ct x c))
+
+/-- with a default: the first unmet condition — whichever kind — ends the check with the default,
+    evaluated (`arg_val`) against the subject; nothing after it runs -/
+def checkWithDefault (d : Arg) (x t0 : V) : List (Cond × Log) → D
+  | [] => vpass t0
+  | (c, l) :: rest =>
     match c with
-    | .holds => let r := checkWithDefault d x t0 rest bad; (r.1, l ++ r.2)
+    | .holds => let r := checkWithDefault d x t0 rest; (r.1, l ++ r.2)
     | .fails => (ofArg d x, l)
-    | .failsRaw => (.pass (rawDefault d), l)
-    | .raised => let r := checkWithDefault d x t0 rest true; (r.1, l ++ r.2)
 
 /-- without a default every condition is evaluated; any unmet one → CheckError -/
 def checkNoDefault (t0 : V) (cs : List (Cond × Log)) : D :=
@@ -124,7 +128,7 @@ def checkRef (ct : ClassTable) (a : CheckArgs) (t0 : V) : D :=
   | .ok o =>
     let go := fun (x : V) =>
       match o.default with
-      | some d => checkWithDefault d x t0 (checkConds ct o x) false
+      | some d => checkWithDefault d x t0 (checkConds ct o x)
       | none => checkNoDefault t0 (checkConds ct o x)
     match o.spec with
     | none => go t0
